@@ -86,6 +86,9 @@ func TestVerifDriver(t *testing.T) {
 			}
 			for k, b := range bufs {
 				slots[k] = "hex:" + hex.EncodeToString(b)
+				if !vTailIntact(b) {
+					slots[k+"#tail"] = "modified"
+				}
 			}
 			res["slots"] = slots
 		}
@@ -122,7 +125,7 @@ func TestVerifDriver(t *testing.T) {
 					if err != nil {
 						panic(err)
 					}
-					bufs[k] = b
+					bufs[k] = vCarve(b)
 				case v == "nilbuf":
 					bufs[k] = nil
 				default:
@@ -311,4 +314,32 @@ func TestVerifDriver(t *testing.T) {
 	if err := os.WriteFile(os.Getenv("VERIF_OUT"), out, 0o644); err != nil {
 		t.Fatal(err)
 	}
+}
+
+
+// vCarve returns b as a slice carved out of a larger buffer: 8 guard bytes in front, 72 bytes of spare capacity behind
+// (like h[:32] of a 64-byte digest), all filled with 0xEE so that writes outside the slice can be detected.
+func vCarve(b []byte) []byte {
+	if b == nil {
+		return nil
+	}
+	big := make([]byte, 8+len(b)+72)
+	for i := range big {
+		big[i] = 0xEE
+	}
+	copy(big[8:], b)
+	return big[8 : 8+len(b) : len(big)]
+}
+
+func vTailIntact(b []byte) bool {
+	if b == nil {
+		return true
+	}
+	full := b[:cap(b)]
+	for i := len(b); i < len(full); i++ {
+		if full[i] != 0xEE {
+			return false
+		}
+	}
+	return true
 }
